@@ -1,6 +1,6 @@
 SPECIFICATION Spec
 CONSTANTS
-  Families = {"wire", "mix2"}
+  Families = {"wire"}
   Big = FALSE
   Faithful = FALSE
 INVARIANTS TypeOK CarriesSame RefIsEncoding EncodingIndependent ViewDiffLocal DevOnlyWhereViewsDiffer DecoderFacts
